@@ -7,6 +7,7 @@ import (
 	"fmt"
 	"reflect"
 	"runtime"
+	"sync"
 
 	"github.com/hashicorp/go-argmapper/internal/graph"
 )
@@ -81,6 +82,11 @@ type Func struct {
 	name       string
 	once       bool
 	onceResult *Result
+
+	// onceLock guards onceResult so that concurrent calls that need a
+	// FuncOnce function execute it only once. This is a pointer because
+	// Func values are copied (see Redefine).
+	onceLock *sync.Mutex
 }
 
 // MustFunc can be called around NewFunc in order to force success and
@@ -139,6 +145,7 @@ func NewFunc(f interface{}, opts ...Arg) (*Func, error) {
 		callOpts: opts,
 		name:     args.funcName,
 		once:     args.funcOnce,
+		onceLock: &sync.Mutex{},
 	}, nil
 }
 
